@@ -37,9 +37,14 @@ def apply_defect(ws: dict, df: dict) -> tuple[dict, set[str]]:
     elif kind == "missver":
         tgt = uni.defs[df["to"]]
         vers = {tuple(x["ver"]) for x in uni.defs.values() if x["name"] == tgt["name"]}
-        v = [tgt["ver"][0], (tgt["ver"][1] + 7) % 256]
-        if tuple(v) in vers:
-            raise InvalidScenario("version exists")
+        v = None
+        for delta in (7, 11, 13, 17, 19, 23, 29, 31):
+            cand = [tgt["ver"][0], (tgt["ver"][1] + delta) % 256]
+            if tuple(cand) not in vers and tuple(cand) != (0, 0):
+                v = cand
+                break
+        if v is None:
+            raise InvalidScenario("no free version")
         add_field(at, ["ref", tgt["name"], v[0], v[1]])
     elif kind == "self":
         add_field(at, ["ref", d["name"], d["ver"][0], d["ver"][1]] + (["rel"] if df.get("rel") else []))
